@@ -19,9 +19,6 @@ pub open spec fn run_ok(uuid: Uuid, m0: TaskMapS, newops: Seq<Operation>, m1: Ta
     }
 }
 pub open spec fn sets_prop(op: Operation, p: Seq<char>) -> bool { op matches Operation::Update { property, .. } && property@ == p }
-pub open spec fn status_name(st: Status) -> Seq<char> {
-    match st { Status::Pending => "pending"@, Status::Completed => "completed"@, Status::Deleted => "deleted"@, Status::Recurring => "recurring"@, Status::Unknown(v) => v@ }
-}
 pub proof fn lemma_run_one(uuid: Uuid, m0: TaskMapS, op: Operation, p: Seq<char>, value: Option<Seq<char>>)
     requires is_update_of(op, uuid, m0, p, value)
     ensures run_ok(uuid, m0, seq![op], upd_map(m0, p, value))
@@ -130,34 +127,6 @@ pub open spec fn prop_name(p: Prop) -> Seq<char> {
 impl Prop {
     #[verifier::external_body]
     pub fn as_ref(&self) -> (r: &'static str) ensures r@ == prop_name(*self) { unimplemented!() }
-}
-
-//@extract src/task/status.rs :: enum Status
-pub enum Status {
-    Pending,
-    Completed,
-    Deleted,
-    Recurring,
-    Unknown(String),
-}
-//@end
-
-impl Status {
-//@extract src/task/status.rs :: impl Status :: fn to_taskmap
-    pub fn to_taskmap(&self) -> (r: &str)
-        ensures
-            //@ob C19 Status::to_taskmap.documented-status-names
-            r@ == status_name(*self),
-{
-        match self {
-            Status::Pending => "pending",
-            Status::Completed => "completed",
-            Status::Deleted => "deleted",
-            Status::Recurring => "recurring",
-            Status::Unknown(v) => v.as_ref(),
-        }
-    }
-//@end
 }
 
 //@extract src/task/task.rs :: struct Task
